@@ -1,4 +1,4 @@
-\* C20: quick: every case on <= 3 modules (self-dependencies allowed, module_depends() calls in name order, every listing, optionally one module without a shared object); for the GOOD cases the hook profiles <<S, S>> and <<S, complement of S>> (S = modules lacking module_post_init, second component = modules lacking module_destructor), all hooks for the others (Python draws profiles for a sample of those)
+\* C20: quick: every case on <= 3 modules (self-dependencies allowed, module_depends() calls in name order, every listing, optionally one module without a shared object); for the GOOD cases the hook profiles <<S, S, {}>> and <<S, complement of S, {}>> (S = modules lacking module_post_init, second component = modules lacking module_destructor, third = modules lacking module_constructor) and <<{}, {}, X>>, <<X, X, X>> for every non-empty set X of modules that declare nothing; all entry points for the others (Python draws profiles for a sample of those)
 SPECIFICATION Spec
 CONSTANTS
     Source = "enum"
